@@ -200,8 +200,50 @@ def nontrivial(spec, fields):
     return bool(kinds & {"swap", "cgate", "bra", "measure"}) and len(spec[1]) >= 3
 
 
+# the counter-witnesses of lean/Props/C13.lean and of notes/finding_*.md, replayed on every run
+WITNESSES = [
+    # F11  Ket(1, 0) >> Id(1) @ Measure() >> Measure() @ Id(bit)
+    ("", [(("ket", (1, 0)), 0), (("measure", 1, 1, 0), 1), (("measure", 1, 1, 0), 0)]),
+    # Ket(1) >> Measure() >> Bits(0) @ Id(bit)
+    ("", [(("ket", (1,)), 0), (("measure", 1, 1, 0), 0), (("bits", (0,), 0), 0)]),
+    # Ket(1, 0) >> Measure(2) >> Discard(bit) @ Id(bit)
+    ("", [(("ket", (1, 0)), 0), (("measure", 2, 1, 0), 0), (("discard", "b"), 0)]),
+    # Ket(1, 0) >> Id(1) @ Bits(0) @ Id(1) >> Measure(1, override_bits=True) @ Id(1) >> Id(bit) @ X >> Id(bit) @ Measure()
+    ("", [(("ket", (1, 0)), 0), (("bits", (0,), 0), 1), (("measure", 1, 1, 1), 0), (("gate", "X"), 1),
+          (("measure", 1, 1, 0), 1)]),
+    # Ket(0, 1, 0) >> Bra(0) @ Id(2) >> Measure() @ Id(1) >> Id(bit) @ Measure() >> Swap(bit, bit)
+    ("", [(("ket", (0, 1, 0)), 0), (("bra", (0,)), 0), (("measure", 1, 1, 0), 0), (("measure", 1, 1, 0), 1),
+          (("swap", "b", "b"), 0)]),
+    # Ket(1) >> Measure() >> Bits(1)[::-1] >> Ket(1) >> Measure()
+    ("", [(("ket", (1,)), 0), (("measure", 1, 1, 0), 0), (("bits", (1,), 1), 0), (("ket", (1,)), 0),
+          (("measure", 1, 1, 0), 0)]),
+    # Ket(0, 0, 1) >> Measure() @ Measure() @ Id(1) >> NOT @ Id(bit @ qubit) >> Swap(bit, bit) @ Id(1)
+    #   >> Id(bit) @ Swap(bit, qubit) >> Id(bit) @ Measure(1, destructive=False, override_bits=True)
+    ("", [(("ket", (0, 0, 1)), 0), (("measure", 1, 1, 0), 0), (("measure", 1, 1, 0), 1), (("cgate", "NOT"), 0),
+          (("swap", "b", "b"), 0), (("swap", "b", "q"), 1), (("measure", 1, 0, 1), 1)]),
+    # Ket(0, 0) >> H @ H >> Id(1) @ S >> Controlled(Y) >> H @ Id(1) >> Measure() @ Discard()
+    ("", [(("ket", (0, 0)), 0), (("gate", "H"), 0), (("gate", "H"), 1), (("gate", "S"), 1), (("ctrl", "Y"), 0),
+          (("gate", "H"), 0), (("measure", 1, 1, 0), 0), (("discard", "q"), 1)]),
+    # F12  Ket(1, 1, 0) >> Bra(1) @ Id(2) >> Measure() @ Id(1)
+    ("", [(("ket", (1, 1, 0)), 0), (("bra", (1,)), 0), (("measure", 1, 1, 0), 0)]),
+    # F13  Ket(1, 1) >> Bra(1) @ Id(1) >> Id(1) @ Ket(0) >> Measure(2)
+    ("", [(("ket", (1, 1)), 0), (("bra", (1,)), 0), (("ket", (0,)), 1), (("measure", 2, 1, 0), 0)]),
+    # Ket(1) >> Measure() >> NOT   (get_counts through a backend)
+    ("", [(("ket", (1,)), 0), (("measure", 1, 1, 0), 0), (("cgate", "NOT"), 0)]),
+    # Controlled(H)
+    ("qq", [(("ctrl", "H"), 0)]),
+    # Ket(1, 0) >> CX >> Id(1) @ Ket(0, 0) @ Id(1) >> Discard(qubit ** 3) @ Measure()   (export has CX(0, 3))
+    ("", [(("ket", (1, 0)), 0), (("gate", "CX"), 0), (("ket", (0, 0)), 1), (("discard", "qqq"), 0),
+          (("measure", 1, 1, 0), 0)]),
+]
+
+
 def export_stream(rep, rng, drv, budget, Circuit):
-    specs = [T.gen_spec(random.Random(rng.getrandbits(64)), max_regs=6) for _ in range(budget["corr"])]
+    n_w = len(WITNESSES)
+    specs = WITNESSES + [T.gen_spec(random.Random(rng.getrandbits(64)), max_regs=6)
+                         for _ in range(budget["corr"])]
+    budget = {k: (v + n_w if k != "max_units" else v) for k, v in budget.items()}
+    rep.count("witnesses_replayed", n_w)
     toks = [T.spec_tokens(s) for s in specs]
     answers = drv.ask_many(["totk " + t for t in toks])
     spec_answers = drv.ask_many(["tkspec " + t for t in toks])
@@ -243,7 +285,7 @@ def export_stream(rep, rng, drv, budget, Circuit):
             continue
         # ---- the theorem's conclusion on this export
         shead, sfields = T.parse_fields(sans)
-        if label == "-":
+        if label == "-" and head == "ok":
             if shead != "ok":
                 rep.disagree("refines", case, "specification defined inside the fragment", sans[:200])
             else:
@@ -276,7 +318,7 @@ def export_stream(rep, rng, drv, budget, Circuit):
         # ---- import of the export: must mean what the export means
         if idx >= budget["roundtrip"]:
             continue
-        if t.n_qubits + len(t.bits) > budget["max_units"]:
+        if t.n_qubits + len(t.bits) > (8 if idx < n_w else budget["max_units"]):
             rep.count("roundtrip_skipped_large")     # from_tk keeps every unit as a wire: 4^q * 2^b entries
             continue
         try:
